@@ -399,7 +399,15 @@ def _expr_chain(text):
         end = j
         src = " ".join(text[start:src_end].split())
         head, opens = [], 0
-        e = "e%d_" % k
+        stage = [0]
+
+        def cur():
+            return "e%d_%d_" % (k, stage[0])
+
+        def nxt():
+            stage[0] += 1
+            return "e%d_%d_" % (k, stage[0])
+        e = cur()
         if kind == "iter":
             recv = " ".join(text[start:m.start()].split())
             if segs and segs[0][0] == "tuple_combinations":
@@ -440,10 +448,11 @@ def _expr_chain(text):
         for name, arg in segs:
             if name == "map":
                 cl = _closure(arg)
+                prev, e = e, nxt()
                 if cl:
-                    body.append("let %s = { let %s = %s; %s };" % (e, cl[0], e, cl[1]))
+                    body.append("let %s = { let %s = %s; %s };" % (e, cl[0], prev, cl[1]))
                 else:
-                    body.append("let %s = %s(%s);" % (e, " ".join(arg.split()), e))
+                    body.append("let %s = %s(%s);" % (e, " ".join(arg.split()), prev))
             elif name == "filter":
                 cl = _closure(arg)
                 if not cl:
@@ -455,7 +464,8 @@ def _expr_chain(text):
                 opens += 1
             elif name == "flat_map":
                 path = " ".join(arg.split())
-                body.append("let t%d_ = %s_v(%s); for u%d_ in 0..t%d_.len() { let %s = t%d_[u%d_];" % (k, path, e, k, k, e, k, k))
+                prev, e = e, nxt()
+                body.append("let t%d_ = %s_v(%s); for u%d_ in 0..t%d_.len() { let %s = t%d_[u%d_];" % (k, path, prev, k, k, e, k, k))
                 opens += 1
             elif name in _CONSUMERS:
                 cons = (name, arg)
